@@ -94,44 +94,8 @@ def r_C08_C34(root):
         if defer and not positional:
             out.append(Finding("C08", "C08.a", M, "ReferenceResolver.resolve_one_step", ast.unparse(c), "list reference stored in resolution order although references can be postponed", witness="refs+=[T]; first reference postponed once"))
     # C34.a / C34.e (which offsets a recorded reference carries) are decided by evaluation: C34.h, sa/rules/cres.py
-    # C34.b sortedness: appended in resolution order while deferral exists -> must be sorted before exposure
-    drv = find(load(root, M), "parse_tree_to_objgraph"); inst += 1
-    sorts = [c for c in calls(drv) if (callee_name(c) == "sort" and "pos_crossref_list" in ast.unparse(c.func)) or (callee_name(c) == "sorted" and "pos_crossref_list" in ast.unparse(c))]
-    if defer and not sorts:
-        out.append(Finding("C34", "C34.b", M, "parse_tree_to_objgraph", "model._pos_crossref_list = pos_crossref_list", "cross-reference list is exposed in resolution order (postponed references / several models) without sorting"))
-    # C34.c innermost wins
-    pn = find(load(root, M), "parse_tree_to_objgraph.process_node"); inst += 1
-    st = [n for n in own_nodes(pn) if (isinstance(n, ast.Assign) and isinstance(n.targets[0], ast.Subscript) and ast.unparse(n.targets[0].value) == "pos_rule_dict") or (isinstance(n, ast.Call) and callee_name(n) == "setdefault" and "pos_rule_dict" in ast.unparse(n.func))]
-    if len(st) != 1: raise AnalysisError("span map store not found/ambiguous")
-    rec = [c for c in calls(pn, own=True) if callee_name(c) == "process_node"]
-    post = max(c.lineno for c in rec) < st[0].lineno
-    overwrite = isinstance(st[0], ast.Assign) and not any("pos" in ast.unparse(g) and "not in" in ast.unparse(g) for g, pol in guards(st[0]) if pol)
-    if post == overwrite: out.append(Finding("C34", "C34.c", M, "parse_tree_to_objgraph.process_node", ast.unparse(st[0]), "%s-order %s: the outermost object wins for a shared span" % ("post" if post else "pre", "overwrite" if overwrite else "first-wins")))
-    # C34.d ordering of spans
-    inst += 1
-    so = next((c for c in calls(drv, own=True) if callee_name(c) == "sorted" and "pos_rule_dict" in ast.unparse(c)), None)
-    if so is None: raise AnalysisError("span ordering not found")
-    kws = {k.arg: k.value for k in so.keywords}
-    rev = ast.unparse(kws["reverse"]) == "True" if "reverse" in kws else False
-    # decided by evaluating the sort key (sa/pyeval.py) on sample spans: contained spans come before their containers
-    from sa import pyeval as _pe
-    kexp = kws.get("key")
-    if kexp is None: raise AnalysisError("span ordering without a key")
-    pairs = ".items()" in ast.unparse(sem.info(drv).expand(so.args[0], at=so)).replace(" ", "") if so.args else False
-    spans = [(0, 10), (0, 4), (2, 4), (2, 3), (5, 9), (5, 10)]
-    def keyval(sp):
-        arg_v = [list(sp), "obj"] if pairs else list(sp)
-        if isinstance(kexp, ast.Lambda): return _pe.evaluate(kexp.body, {kexp.args.args[0].arg: arg_v})
-        if isinstance(kexp, ast.Name):
-            kf = next((n for n in ast.walk(drv) if isinstance(n, ast.FunctionDef) and n.name == kexp.id), None)
-            if kf is not None and kf.args.args: return _pe.run_block(kf.body, {kf.args.args[0].arg: arg_v})
-        raise AnalysisError("span sort key is neither a lambda nor a local function")
-    try: order = sorted(spans, key=lambda sp: keyval(sp), reverse=rev)
-    except _pe.Unsupported as e: raise AnalysisError("span sort key outside the evaluated subset: %s" % e)
-    want = sorted(spans, key=lambda sp: (-sp[0], sp[1]))
-    okd_ = order == want
-    ob("C34", "C34.d", M, "parse_tree_to_objgraph", "span order on sample spans: %s" % order, okd_)
-    if not okd_: out.append(Finding("C34", "C34.d", M, "parse_tree_to_objgraph", " ".join(ast.unparse(so).split())[:100], "sample spans are ordered %s; contained spans must precede their containers (start descending, end ascending: %s)" % (order, want)))
+    # C34.b (the published list is sorted) is decided by evaluation of the driver: C34.j (sa/rules/cdrv.py)
+    # C34.c (innermost object wins for a shared span) and C34.d (order of the span map) are decided by evaluation: C34.i (sa/rules/cpn.py), C34.j (sa/rules/cdrv.py)
     return inst, out
 def _depends_on(expr, rootname, region, depth=0):
     """does expr data-depend on variable rootname via local assignments in region (flow-insensitive, all defs)"""
@@ -271,13 +235,36 @@ def r_C16a(root):
             for tg, v in pairs:
                 if isinstance(tg, ast.Attribute) and isinstance(tg.value, ast.Name) and tg.value.id == recv and isinstance(v, (ast.List, ast.Dict, ast.Set)): s.add(tg.attr)
         return s
-    made = containers(init, "self"); reset = containers(cl, "the_clone")
-    inst += len(made)
-    for f in sorted(made - reset): out.append(Finding("C16", "C16.a", M, "TextXModelParser.clone", "the_clone.%s" % f, "per-parse container %r created in __init__ is shared between the blueprint and its clones" % f))
-    # arpeggio Parser per-parse containers mutated while parsing
-    for f in ("comments", "comment_positions"):
+    made = containers(init, "self")
+    if not made: raise AnalysisError("TextXModelParser.__init__: per-parse containers not found")
+    # by evaluation of clone() on a sample blueprint whose per-parse containers are in use: the clone gets fresh empty ones, everything else is shared
+    from sa import pyeval as _pe
+    from sa.exprs import HS as _HS
+    per_parse = sorted(made | {"comments", "comment_positions"})
+    blue = _HS({".kind": "parser", ".parser_model": _HS({".kind": "peg"}), ".metamodel": _HS({".kind": "metamodel"}), ".debug": False, ".file_name": "first.file", ".memoization": False})
+    proto = {}
+    for n_ in own_nodes(init):
+        if isinstance(n_, ast.Assign):
+            for tg_, v_ in (list(zip(n_.targets[0].elts, n_.value.elts)) if isinstance(n_.targets[0], ast.Tuple) and isinstance(n_.value, ast.Tuple) and len(n_.targets[0].elts) == len(n_.value.elts) else [(n_.targets[0], n_.value)]):
+                if isinstance(tg_, ast.Attribute) and tg_.attr in made: proto[tg_.attr] = {ast.List: list, ast.Dict: dict, ast.Set: set}[type(v_)]
+    proto.setdefault("comments", list); proto.setdefault("comment_positions", dict)
+    for f in per_parse: blue["." + f] = {list: ["in use"], dict: {"in": "use"}, set: {"in use"}}[proto[f]]
+    fns_ = {k_: v_ for k_, v_ in helper_functions(root, M, "get_model_parser.TextXModelParser.clone").items() if k_ != "clone"}
+    def _shallow(o):
+        c_ = _HS(o); return c_
+    env_ = {"__functions__": fns_, "__module__": t, cl.args.args[0].arg: blue, "copy": {".copy": _pe.PyFn(_shallow), ".deepcopy": _pe.PyFn(lambda o: (_ for _ in ()).throw(_pe.Unsupported("deepcopy of a parser")))}}
+    try: k_, cln = "ret", _pe.run_block(cl.body, env_)
+    except _pe.Raised as r_: k_, cln = "raise", r_
+    except _pe.Unsupported as u_: raise AnalysisError("TextXModelParser.clone: outside the evaluated subset: %s" % u_)
+    for f in per_parse:
         inst += 1
-        if f not in reset: out.append(Finding("C16", "C16.a", M, "TextXModelParser.clone", "the_clone.%s" % f, "arpeggio per-parse container %r is shared with the blueprint" % f))
+        okf = k_ == "ret" and isinstance(cln, dict) and cln is not blue and ("." + f) in cln and cln["." + f] is not blue["." + f] and type(cln["." + f]) is proto[f] and len(cln["." + f]) == 0 and len(blue["." + f]) == 1
+        ob("C16", "C16.a", M, "TextXModelParser.clone", "the clone gets a fresh empty %s" % f, okf)
+        if not okf: out.append(Finding("C16", "C16.a", M, "TextXModelParser.clone", "the_clone.%s" % f, ("clone() raises %s" % cln.cls) if k_ == "raise" else "per-parse container %r is shared between the blueprint and its clones (or is not a fresh empty %s): loads made with one meta-model influence each other" % (f, proto[f].__name__)))
+    inst += 1
+    oks = k_ == "ret" and isinstance(cln, dict) and cln.get(".parser_model") is blue[".parser_model"] and cln.get(".metamodel") is blue[".metamodel"]
+    ob("C16", "C16.a", M, "TextXModelParser.clone", "the clone shares the compiled grammar and the meta-model", oks)
+    if not oks: out.append(Finding("C16", "C16.a", M, "TextXModelParser.clone", "the_clone.parser_model / metamodel", "the clone does not share the blueprint's compiled grammar and meta-model"))
     mm = load(root, "textx/metamodel.py")
     for c in calls(mm):
         if callee_name(c) in ("get_model_from_str", "get_model_from_file") and isinstance(c.func, ast.Attribute):
